@@ -8,7 +8,7 @@ def sub(path, old, new, count=1):
     s=(V/path).read_text(); assert old in s, (path, old[:60]); (V/path).write_text(s.replace(old,new,count))
 # theorem / module lists
 sub('harness/props/c09.py','MODULES = [','MODULES = ["LbfgsbVerif.Props.C09Solve", ')
-sub('harness/props/c09.py','THEOREMS = [','THEOREMS = ["Lbfgsb.C09.gauss_solves", "Lbfgsb.C09.gauss_unique", "Lbfgsb.C09.subspace_newton_point_solved", "Lbfgsb.C09.subspace_model_no_increase_solved", "Lbfgsb.C09.subspace_direction_descent_solved", ')
+sub('harness/props/c09.py','THEOREMS = [','THEOREMS = ["Lbfgsb.C09.gauss_solves", "Lbfgsb.C09.gauss_unique", "Lbfgsb.C09.subspace_newton_point_solved", "Lbfgsb.C09.subspace_model_no_increase_solved", "Lbfgsb.C09.subspace_direction_descent_solved", "Lbfgsb.C09.subspace_newton_point_pd", "Lbfgsb.C09.regular_pivots", ')
 sub('harness/props/c08.py','MODULES = [','MODULES = ["LbfgsbVerif.Props.C09Solve", ')
 sub('harness/props/c08.py','THEOREMS = [','THEOREMS = ["Lbfgsb.C09.middle_product_exact", "Lbfgsb.C09.gcp_first_local_min_solved", ')
 sub('harness/props/c06.py','"Lbfgsb.C06.restart_at_every_split"]','"Lbfgsb.C06.restart_at_every_split", "Lbfgsb.C06.restart_at_every_split_complete"]')
@@ -28,4 +28,6 @@ sub('harness/props/c10.py','''    out["tags"] = sorted(set(out["tags"]))''',''' 
                 out["corr"].append(f"middle-matrix product: bmv (triangular factors) vs the model's elimination differ by {float(np.max(np.abs(np.array(hexv(x1)) - a))):.2e}")
         out["tags"].append(f"theorem_hypothesis_pivots_nonzero={all(p != 0.0 and p == p for p in hexv(piv))}")
     out["tags"] = sorted(set(out["tags"]))''')
+sub('harness/props/c01.py','MODULES = [','MODULES = ["LbfgsbVerif.Props.C09Solve", ')
+sub('harness/props/c01.py','THEOREMS = [','THEOREMS = ["Lbfgsb.C09.complete_iteration_descent_solved", ')
 print("ok")
